@@ -237,6 +237,25 @@ def _term(prop, pid, case, obs):
         _escape(pid, case, "the observation of this case cannot be expressed as a term of the model (a value or event kind the pinned tree never produces)")
 
 
+def _try_run(prop, case, limit=60):
+    """run one candidate of the search for a smaller failing case; None when it raises or does not finish (the candidate is
+    then simply not used: the case it was derived from has already been observed)"""
+    import signal
+
+    def on_alarm(_s, _f):
+        raise _Hang()
+    old = signal.signal(signal.SIGALRM, on_alarm)
+    signal.setitimer(signal.ITIMER_REAL, limit, 5)
+    try:
+        obs = prop.run_impl(case)
+        return obs, prop.to_coq(case, obs)
+    except (Exception, _Hang):  # noqa
+        return None
+    finally:
+        signal.setitimer(signal.ITIMER_REAL, 0)
+        signal.signal(signal.SIGALRM, old)
+
+
 def _guarded(prop, pid, case, limit=90):
     """run one case on the implementation; a case that does not finish within `limit` s of real time is reported as a
     violation with that case as the replay (on the unchanged tree a case takes milliseconds)"""
@@ -327,14 +346,31 @@ def run(prop, argv=None) -> int:
     spec_fail = [f for f in fails if not f[2]]
 
     def evaluate(cs):
-        obs = [prop.run_impl(c) for c in cs]
-        fl, _ = eval_cases(pid, prop.RUN_MODULE, [prop.to_coq(c, o) for c, o in zip(cs, obs)], tag="search")
+        """candidates of the search for a smaller failing case: one that cannot be run, expressed or type-checked is left out"""
+        good = []
+        for c in cs:
+            r = _try_run(prop, c)
+            if r is not None:
+                good.append((c, r[0], r[1]))
+        while good:
+            try:
+                fl, _ = eval_cases(pid, prop.RUN_MODULE, [t for _, _, t in good], tag="search")
+                break
+            except CaseTermError as e:
+                if e.index is None or not (0 <= e.index < len(good)):
+                    return []
+                del good[e.index]
+        else:
+            return []
         d = {i: (ag, ok, ex) for i, ag, ok, ex in fl}
-        return [(c, o) + d.get(i, (True, True, [])) for i, (c, o) in enumerate(zip(cs, obs))]
+        return [(c, o) + d.get(i, (True, True, [])) for i, (c, o, _) in enumerate(good)]
 
-    def shrink(case, pred):
-        """greedy shrink keeping pred(agree, ok, excl) true; prefers candidates free of known situations"""
+    def shrink(case, pred, orig=None):
+        """greedy shrink keeping pred(agree, ok, excl) true; prefers candidates free of known situations.
+        orig = the tuple already known for `case`, used when the case cannot be evaluated again"""
         cur = case
+        first = evaluate([case])
+        last = first[0] if first else orig
         for _ in range(40):
             cands = list(prop.shrink(cur))[:120]
             if not cands:
@@ -344,12 +380,16 @@ def run(prop, argv=None) -> int:
                 break
             ev.sort(key=lambda e: (len([x for x in e[4] if x in open_findings]) > 0, len(json.dumps(e[0]))))
             cur = ev[0][0]
-        return evaluate([cur])[0]
+            last = ev[0]
+        return last
 
     def write_replay(kind, c, o, ag, ok, ex, note):
         n = len(os.listdir(os.path.join(VERIF, "replays")))
         path = os.path.join(VERIF, "replays", f"{pid}_{kind}_{n}.json")
-        _, extras = eval_cases(pid, prop.RUN_MODULE, [prop.to_coq(c, o)], tag="explain", extra=getattr(prop, "EXPLAIN", None))
+        try:
+            _, extras = eval_cases(pid, prop.RUN_MODULE, [prop.to_coq(c, o)], tag="explain", extra=getattr(prop, "EXPLAIN", None))
+        except Exception:  # noqa - the replay is written without the model's account of the case
+            extras = None
         json.dump({"property": pid, "kind": kind, "note": note, "case": c, "observed_on_implementation": o,
                    "model_and_spec_say": extras[0] if extras else None, "agree": ag, "ok": ok, "known_situations": ex,
                    "replay_cmd": f"./check {pid} --replay {path}"}, open(path, "w"), indent=1)
@@ -382,7 +422,7 @@ def run(prop, argv=None) -> int:
             ev = evaluate(cands[:150])
             clean = [e for e in ev if not e[3] and not is_known(e[4])]
             if clean:
-                return clean[0][0]
+                return clean[0]
             frontier = [e[0] for e in ev if not e[3]][:3]
             if not frontier:
                 return None
@@ -400,13 +440,13 @@ def run(prop, argv=None) -> int:
                 if hv is None:
                     report_known(is_known(ex))
                     continue
-                start = hv
+                start, orig = hv[0], hv
             else:
                 report_known(is_known(ex))
                 continue
         else:
-            start = cases[idx]
-        c, o, ag2, ok2, ex2 = shrink(start, lambda ag_, ok_, ex_: not ok_)
+            start, orig = cases[idx], (cases[idx], observed[idx], ag, ok, ex)
+        c, o, ag2, ok2, ex2 = shrink(start, lambda ag_, ok_, ex_: not ok_, orig)
         key = json.dumps(c, sort_keys=True)
         if key in seen_shrunk:
             continue
@@ -425,12 +465,12 @@ def run(prop, argv=None) -> int:
         for idx, ag, ok, ex in disagreements[:5]:
             if smallest is None:
                 smallest = (cases[idx], observed[idx], ag, ok, ex)
-            c, o, ag2, ok2, ex2 = shrink(cases[idx], lambda ag_, ok_, ex_: not ag_)
+            c, o, ag2, ok2, ex2 = shrink(cases[idx], lambda ag_, ok_, ex_: not ag_, (cases[idx], observed[idx], ag, ok, ex))
             smallest = (c, o, ag2, ok2, ex2) if idx == disagreements[0][0] else smallest
             neigh = list(prop.neighbours(c, rng))[:400] if hasattr(prop, "neighbours") else []
             for e in evaluate(neigh) if neigh else []:
                 if not e[3] and not [x for x in e[4] if x in open_findings]:
-                    found = shrink(e[0], lambda ag_, ok_, ex_: not ok_)
+                    found = shrink(e[0], lambda ag_, ok_, ex_: not ok_, e)
                     break
             if found:
                 break
